@@ -499,7 +499,14 @@ impl Gen {
             let rm = r.chance(30) as i64;
             cands.push((11, vec![L_START, nt, OP_GET, mode, rm]));
             let blocking = r.chance(50) as i64;
-            let addw = if self.profile == Profile::Full { 14 } else { 8 };
+            let snap = w.pool.verif_snapshot();
+            let addw = if self.profile == Profile::Full {
+                16
+            } else if snap.size < snap.max_size {
+                15
+            } else {
+                6
+            };
             if !loose.is_empty() && r.chance(50) {
                 let o = loose[r.below(loose.len() as u64) as usize] as i64;
                 cands.push((addw, vec![L_START, nt, OP_ADD, o, blocking]));
@@ -508,9 +515,9 @@ impl Gen {
             }
             if !held.is_empty() {
                 let o = held[r.below(held.len() as u64) as usize] as i64;
-                cands.push((7, vec![L_START, nt, OP_DROP, o, 0]));
+                cands.push((10, vec![L_START, nt, OP_DROP, o, 0]));
                 let o = held[r.below(held.len() as u64) as usize] as i64;
-                cands.push((3, vec![L_START, nt, OP_TAKE, o, 0]));
+                cands.push((4, vec![L_START, nt, OP_TAKE, o, 0]));
             }
             cands.push((2, vec![L_START, nt, OP_STATUS, 0, 0]));
             match self.profile {
